@@ -158,6 +158,17 @@ def paidInto (bal : Map Addr Nat) (deposit dst : Addr) : List Effect → List (A
   | .slash _ _ n :: es => paidInto (Map.set bal deposit (balOf bal deposit - n)) deposit dst es
   | _ :: es => paidInto bal deposit dst es
 
+/-- the transfers into `dst` that the bank refused (same replay): the payer could not afford them -/
+def failedInto (bal : Map Addr Nat) (deposit dst : Addr) : List Effect → List (Addr × Nat)
+  | [] => []
+  | .transfer a b n :: es =>
+    if balOf bal a < n then (if b == dst then [(a, n)] else []) ++ failedInto bal deposit dst es
+    else
+      let m1 := Map.set bal a (balOf bal a - n)
+      failedInto (Map.set m1 b (balOf m1 b + n)) deposit dst es
+  | .slash _ _ n :: es => failedInto (Map.set bal deposit (balOf bal deposit - n)) deposit dst es
+  | _ :: es => failedInto bal deposit dst es
+
 def allAccts (t : Step) : List Addr := (t.pre.bank.bal.map (·.1) ++ t.post.bank.bal.map (·.1)).eraseDups
 
 /-- C02 (last sentence), C05: coins move only as the step's transfer / slash effects say -/
@@ -333,6 +344,19 @@ def authority (t : Step) : Viol :=
               s!"end-of-block lowered the balance of {a}, which has no running context that issued a batch")
         | _ => [])
 
+/-- the providers of context `x` eligible at the end of this block, with their prices: from the post-state bindings
+    (the end of a block changes bindings only in its expiry phase, which precedes the new batches) -/
+def eligibleAt (t : Step) (x : Ctx) : List (Addr × Nat) :=
+  x.provs.filterMap (fun pr =>
+    match Map.get t.post.bindings (x.svc, pr) with
+    | none => none
+    | some b =>
+      match parsePricing b.text with
+      | .ok pricing =>
+        let price := priceOf pricing t.pre.time (getOr t.pre.volume (x.cons, x.svc, pr) 0)
+        if b.avail && decide ((b.qos : Int) ≤ x.timeout) && price ≤ x.cap then some (pr, price) else none
+      | _ => none)
+
 /-- C06 / C07: requests issued in this end-of-block versus eligibility and pricing recomputed
     from the published text of the post-expiry bindings -/
 def issueLaw (t : Step) : Viol :=
@@ -348,20 +372,20 @@ def issueLaw (t : Step) : Viol :=
       | none => []
       | some x' =>
         if x'.batch == x.batch then
-          chk (!t.post.reqs.any (fun q => q.1.ctx == c && q.2.reqH == t.pre.height)) "requests issued without advancing the batch counter"
+          chk (!t.post.reqs.any (fun q => q.1.ctx == c && q.2.reqH == t.pre.height)) "requests issued without advancing the batch counter" ++
+          -- the end blocker pauses a running context only when its consumer cannot pay the batch: it is a violation when
+          -- what the consumer held before the block, less everything it paid in this block, covers the batch's total
+          (if x.state == .running && x'.state == .paused && !x.super then
+             let el := eligibleAt t x
+             let total := (el.map (·.2)).sum
+             let paid := ((paidInto t.pre.bank.bal t.pre.cfg.deposit t.pre.cfg.escrow t.effs).filter (·.1 == x.cons)).map (·.2) |>.sum
+             chk (!(el.length > 0 && el.length ≥ x.thr && paid + total ≤ t.pre.bal x.cons))
+               s!"context paused by the end blocker although its consumer could pay the batch ({total}, after paying {paid} of {t.pre.bal x.cons} in this block)"
+           else [])
         else
           let issued := sortReqIds ((t.post.reqs.filter (fun q => q.1.ctx = c ∧ q.1.batch = x'.batch)).map (·.1))
           let provsIssued := issued.filterMap (fun r => (Map.get t.post.reqs r).map (·.prov))
-          -- eligibility from the post-state bindings (end-of-block changes bindings only in its expiry phase)
-          let el := x.provs.filterMap (fun pr =>
-            match Map.get t.post.bindings (x.svc, pr) with
-            | none => none
-            | some b =>
-              match parsePricing b.text with
-              | .ok pricing =>
-                let price := priceOf pricing t.pre.time (getOr t.pre.volume (x.cons, x.svc, pr) 0)
-                if b.avail && decide ((b.qos : Int) ≤ x.timeout) && price ≤ x.cap then some (pr, price) else none
-              | _ => none)
+          let el := eligibleAt t x
           chk (x.state == .running) "batch counter advanced for a context that was not running" ++
           chk (x'.batch == x.batch + 1) "batch counter advanced by more than one" ++
           (if el.length > 0 && el.length ≥ x.thr then
